@@ -18,6 +18,9 @@ type Recording struct {
 	// API submissions the canonical schedule had reached by then). Snaps[node][0] is the
 	// fresh node.
 	Snaps [][]Snapshot
+	// PreSnaps[node][k] = the same, captured before the operator answered the operations pending
+	// at that point (so operations created by message k are still pending in it)
+	PreSnaps [][]Snapshot
 	// OpsSeen[node] = every request operation the node offered, in order of appearance
 	DKGEnd int // log length when the key generation completed
 }
@@ -41,6 +44,10 @@ func (w *World) stepwiseDrain(rec *Recording) error {
 					rec.Snaps[i] = append(rec.Snaps[i], nil)
 				}
 				rec.Snaps[i][off] = n.Mem.Snapshot()
+				for len(rec.PreSnaps[i]) <= off {
+					rec.PreSnaps[i] = append(rec.PreSnaps[i], nil)
+				}
+				rec.PreSnaps[i][off] = rec.Snaps[i][off]
 				progressed = true
 			}
 		}
@@ -76,9 +83,10 @@ func RecordCeremony(n, t int, batches []BatchSpec) (*Recording, error) {
 	if err != nil {
 		return nil, err
 	}
-	rec := &Recording{W: w, Snaps: make([][]Snapshot, n)}
+	rec := &Recording{W: w, Snaps: make([][]Snapshot, n), PreSnaps: make([][]Snapshot, n)}
 	for i, nd := range w.Nodes {
 		rec.Snaps[i] = []Snapshot{nd.Mem.Snapshot()}
+		rec.PreSnaps[i] = []Snapshot{nd.Mem.Snapshot()}
 	}
 	round, err := w.StartDKG(t, n-1)
 	if err != nil {
